@@ -30,11 +30,17 @@ type c05Op struct {
 	Thread int    // acquire/release: slot of the request thread
 	SKind  int    // sync: new kind
 	M      int32  // sync: new max (kMIF)
+	Strat  int    // sync: limit strategy of the schema (0 none, 1 local, 2 globalAllocate, 3 globalCount)
 }
+
+var c05Strats = []proxyv1alpha1.LimitStrategy{"", proxyv1alpha1.LocalLimit, proxyv1alpha1.GlobalAllocateLimit, proxyv1alpha1.GlobalCountLimit}
 
 func (o c05Op) String() string {
 	switch o.Kind {
 	case "sync":
+		if o.Strat != 0 {
+			return fmt.Sprintf("sync(%s,M=%d,%s)", []string{"absent", "maxinflight", "tokenbucket", "exempt"}[o.SKind], o.M, c05Strats[o.Strat])
+		}
 		return fmt.Sprintf("sync(%s,M=%d)", []string{"absent", "maxinflight", "tokenbucket", "exempt"}[o.SKind], o.M)
 	}
 	return fmt.Sprintf("%s(t%d)", o.Kind, o.Thread)
@@ -114,11 +120,16 @@ func c05Model(init c05State) porcupine.Model {
 	return nm.ToModel()
 }
 
-func c05Schema(name string, kind int, m int32) (proxyv1alpha1.FlowControlSchema, bool) {
-	s := proxyv1alpha1.FlowControlSchema{Name: name}
+func c05Schema(name string, kind int, m int32, strat int) (proxyv1alpha1.FlowControlSchema, bool) {
+	s := proxyv1alpha1.FlowControlSchema{Name: name, Strategy: c05Strats[strat]}
 	switch kind {
 	case kMIF:
 		s.MaxRequestsInflight = &proxyv1alpha1.MaxRequestsInflightFlowControlSchema{Max: m}
+		if strat >= 2 {
+			// a global strategy comes with a global limit; this limiter runs in
+			// local mode, where the local limit stays the one that counts
+			s.GlobalMaxRequestsInflight = &proxyv1alpha1.MaxRequestsInflightFlowControlSchema{Max: m + 5}
+		}
 	case kTB:
 		s.TokenBucket = &proxyv1alpha1.TokenBucketFlowControlSchema{QPS: 1000, Burst: 1000}
 	case kExempt:
@@ -150,17 +161,17 @@ func RunC05(r *sim.Run) {
 		curKind = []int{kTB, kExempt, kAbsent}[t.Draw(3)]
 	}
 	initKind := curKind
-	spec := func(kind int, m int32) proxyv1alpha1.FlowControl {
+	spec := func(kind int, m int32, strat int) proxyv1alpha1.FlowControl {
 		var fc proxyv1alpha1.FlowControl
-		if s, ok := c05Schema("s", kind, m); ok {
+		if s, ok := c05Schema("s", kind, m, strat); ok {
 			fc.Schemas = append(fc.Schemas, s)
 		}
-		b, _ := c05Schema("by", kMIF, byM)
+		b, _ := c05Schema("by", kMIF, byM, 0)
 		fc.Schemas = append(fc.Schemas, b)
 		return fc
 	}
-	lim.Sync(spec(curKind, curM))
-	other.Sync(spec(kMIF, 1))
+	lim.Sync(spec(curKind, curM, 0))
+	other.Sync(spec(kMIF, 1, 0))
 
 	type prog struct {
 		name string
@@ -183,6 +194,11 @@ func RunC05(r *sim.Run) {
 			switch t.Pick([]int{5, 2, 1, 2}) {
 			case 0:
 				op.SKind, op.M = kMIF, int32(t.Range(0, 4))
+				if t.Draw(3) == 0 {
+					// the same limit under another strategy (not a type change: the count goes on)
+					op.M = curM
+				}
+				op.Strat = t.Pick([]int{4, 1, 1, 1})
 			case 1:
 				op.SKind = kTB
 			case 2:
@@ -253,7 +269,7 @@ func RunC05(r *sim.Run) {
 						typeChanges++
 					}
 					curKind, curM = op.SKind, op.M
-					lim.Sync(spec(op.SKind, op.M))
+					lim.Sync(spec(op.SKind, op.M, op.Strat))
 					out = true
 				}
 				stamp++
